@@ -4,6 +4,7 @@ import (
 	"encoding/json"
 	"fmt"
 	"os"
+	"reflect"
 	"sort"
 	"strings"
 	"sync"
@@ -270,9 +271,42 @@ func (s *sim) bounds() {
 		}
 		ci := cnts.MapRange()
 		for ci.Next() {
-			if ci.Value().Int() > perSender+1 {
-				s.bad("per-sender-bound", "c15-too-many-buffered-messages", fmt.Sprintf("%d messages buffered for one sender and topic", ci.Value().Int()))
+			if n, ok := asInt(ci.Value()); ok && n > perSender+1 {
+				s.bad("per-sender-bound", "c15-too-many-buffered-messages", fmt.Sprintf("%d messages buffered for one sender and topic", n))
 			}
+		}
+	}
+	// the same two bounds on what is actually held, whatever the counters say: messages per sender
+	// and topic, and topics in which a sender has something buffered
+	held := map[uint64]int{}
+	it = pm.MapRange()
+	for it.Next() {
+		sm := it.Value()
+		if sm.IsNil() {
+			continue
+		}
+		msgs, ok := dump.FieldV(sm, "messages")
+		if !ok || msgs.Kind() != reflect.Slice {
+			continue
+		}
+		per := map[uint64]int{}
+		for i := 0; i < msgs.Len(); i++ {
+			if src, ok := dump.FieldV(msgs.Index(i), "Source"); ok {
+				if n, ok := asInt(src); ok {
+					per[uint64(n)]++
+				}
+			}
+		}
+		for sd, n := range per {
+			held[sd]++
+			if n > perSender+1 {
+				s.bad("per-sender-bound", "c15-too-many-buffered-messages", fmt.Sprintf("%d messages of sender %d are held for one topic (limit %d)", n, sd, perSender))
+			}
+		}
+	}
+	for sd, n := range held {
+		if n > maxTopics+1 {
+			s.bad("topics-bound", "c15-too-many-topics-buffered", fmt.Sprintf("messages of sender %d are held for %d topics that have not started (limit %d)", sd, n, maxTopics))
 		}
 	}
 	if tf, ok := dump.Field(s.box, "totalInFlightTopicsBySender"); ok {
@@ -283,6 +317,16 @@ func (s *sim) bounds() {
 			}
 		}
 	}
+}
+
+func asInt(v reflect.Value) (int, bool) {
+	switch v.Kind() {
+	case reflect.Int, reflect.Int8, reflect.Int16, reflect.Int32, reflect.Int64:
+		return int(v.Int()), true
+	case reflect.Uint, reflect.Uint8, reflect.Uint16, reflect.Uint32, reflect.Uint64:
+		return int(v.Uint()), true
+	}
+	return 0, false
 }
 
 // key: canonical dump for deduplication (relative times)
@@ -591,6 +635,17 @@ func sharingCase(expire time.Duration, openers int) harness.Case {
 	}}
 }
 
+// histCase: one fixed history (floods, topics that resemble one another).
+func histCase(expire time.Duration, name string, h []op) harness.Case {
+	return harness.Case{ID: fmt.Sprintf("e%d/%s", int(expire/time.Second), name), Run: func(c *harness.C) {
+		reported := map[string]bool{}
+		runHist(c, expire, h, true, reported)
+		c.Add("executions", 1)
+		c.Add("transitions", len(h))
+		c.Outcome(fmt.Sprintf("%v|%s", expire, name))
+	}}
+}
+
 func gen(c *harness.C) []harness.Case {
 	c.Note("rule", "sequential histories on the real msg.Box in a bubble (virtual wall clock, harness ticker as epoch clock, limits: 2 topics per sender, 100 messages per sender and topic, GCSweep 1s, GCExpire 2s/4s); BFS over the operation alphabet with deduplication on the reflection dump; a map-based reference model decides which messages are within the limits; from every state of depth <= 3 a release horizon of 3*GCExpire epochs is run; distinct_nontrivial = distinct histories of the release checks and cycles")
 	depth := 5
@@ -607,6 +662,26 @@ func gen(c *harness.C) []harness.Case {
 		}
 		for _, n := range []int{2, 3, 5} {
 			cases = append(cases, sharingCase(e, n))
+		}
+		// floods far beyond the limit (counters of any width must not come round again)
+		floods := []int{255, 256, 257, 358, 513, 1000}
+		if c.Thorough() {
+			floods = append(floods, 65535, 65536, 65537, 65638, 70000)
+		}
+		for _, n := range floods {
+			cases = append(cases, histCase(e, fmt.Sprintf("flood/%d", n), []op{{K: "burst", S: 1, T: "A", N: n}, {K: "recv", S: 2, T: "A"}, {K: "send", T: "A"}}))
+		}
+		// topics that agree in their first / last bytes are different topics
+		for _, pat := range []string{"SAMEPREFIX-%d", "SAMEPREFIXSAMEPREFIXSAMEPREFIX-%d", "%d-SAMESUFFIXSAMESUFFIXSAMESUFFIX"} {
+			var h []op
+			for i := 0; i < 6; i++ {
+				h = append(h, op{K: "recv", S: 1, T: fmt.Sprintf(pat, i)})
+			}
+			for i := 0; i < 6; i++ {
+				h = append(h, op{K: "recv", S: 1, T: fmt.Sprintf(pat, i)})
+			}
+			h = append(h, op{K: "send", T: fmt.Sprintf(pat, 0)}, op{K: "recv", S: 1, T: fmt.Sprintf(pat, 1)}, op{K: "send", T: fmt.Sprintf(pat, 1)})
+			cases = append(cases, histCase(e, "similar-topics/"+fmt.Sprintf(pat, 0), h))
 		}
 		for _, p := range [][]op{nil, {{K: "recv", S: 1, T: "A"}}, {{K: "recv", S: 1, T: "A"}, {K: "recv", S: 1, T: "B"}}, {{K: "idle", N: 5}}, {{K: "send", T: "A"}, {K: "idle", N: 5}}} {
 			cases = append(cases, cycleCase(e, p))
